@@ -222,7 +222,7 @@ def describe(tier):
         "judged clause by clause by models/segments.py. state = (table, method, options[, schedule]); non-trivial = at least one bin "
         "is filtered out or the schedule deviates from the default order",
         "bound": {
-            "words": ("length <= 6 default variant, <= 5 with one deviation (8 layouts, 4 gene patterns), <= 4 full layout x gene product" if t else "length <= 4 default variant, <= 3 with one deviation (8 layouts, 4 gene patterns)"),
+            "words": ("length <= 6 default variant, <= 5 with one deviation (8 layouts, 4 gene patterns), <= 3 full layout x gene product" if t else "length <= 4 default variant, <= 3 with one deviation (8 layouts, 4 gene patterns)"),
             "arms": "n in {120, 400} x gap {no, 1 Mb} x every <=2-subset of 7 named positions x kind "
             + ("{l, z, w} x profile {flat, step, spike} x outlier {10, 0, 3, 1}" if t else "{l, z}, flat, outlier 10; (step, outlier 10 / off), (spike, outlier 10 / 3 / 1) and 6 chromosome contexts on 5 edge patterns"),
             "schedules": "2 and 3 arm tasks x workers {1, 2}" + (", 4 arm tasks x 1 worker" if t else "") + ", all choice sequences",
@@ -243,7 +243,7 @@ def describe(tier):
 
 def cases(tier):
     t = tier == "thorough"
-    max_default, max_dev, max_full = (6, 5, 4) if t else (4, 3, 0)
+    max_default, max_dev, max_full = (6, 5, 3) if t else (4, 3, 0)
     for n in range(1, max_default + 1):
         for w in words(n):
             yield {"check": "words", "word": w, "layout": "next-oo", "genes": "plain"}
@@ -303,42 +303,42 @@ def cases(tier):
 
 def pool_tables(t):
     out = [
-        {"kind": "words", "word": "zoz", "layout": "middle-of-four", "genes": "dup", "skip_low": True},
-        {"kind": "words", "word": "lol", "layout": "next-all-null", "genes": "anti", "skip_low": True},
-        {"kind": "arms", **arms_spec(120, True, "step", ["first", "last"], "z")},
-        {"kind": "arms", **arms_spec(120, True, "flat", ["gap-left", "gap-right"], "l", context="five")},
-        {"kind": "arms", **arms_spec(400, True, "spike", ["first"], "l", 3, context="six-Y-null")},
+        {"type": "words", "word": "zoz", "layout": "middle-of-four", "genes": "dup", "skip_low": True},
+        {"type": "words", "word": "lol", "layout": "next-all-null", "genes": "anti", "skip_low": True},
+        {"type": "arms", **arms_spec(120, True, "step", ["first", "last"], "z")},
+        {"type": "arms", **arms_spec(120, True, "flat", ["gap-left", "gap-right"], "l", context="five")},
+        {"type": "arms", **arms_spec(400, True, "spike", ["first"], "l", 3, context="six-Y-null")},
     ]
     if t:
         out += [
-            {"kind": "arms", **arms_spec(400, True, "step", ["last"], "w", context="three-with-X")},
-            {"kind": "arms", **arms_spec(120, False, "flat", ["first", "second"], "z", context="primary-last")},
-            {"kind": "words", "word": "wzolo", "layout": "word-last", "genes": "dup", "skip_low": True},
+            {"type": "arms", **arms_spec(400, True, "step", ["last"], "w", context="three-with-X")},
+            {"type": "arms", **arms_spec(120, False, "flat", ["first", "second"], "z", context="primary-last")},
+            {"type": "words", "word": "wzolo", "layout": "word-last", "genes": "dup", "skip_low": True},
         ]
     return out
 
 
 def schedule_tables(t):
     out = [
-        ({"kind": "arms", **arms_spec(120, True, "flat", ["first", "last"], "z", context="alone")}, 2),
-        ({"kind": "arms", **arms_spec(120, True, "step", ["gap-left", "gap-right"], "l", context="alone")}, 2),
-        ({"kind": "words", "word": "zoz", "layout": "next-olo", "genes": "dup", "skip_low": True}, 2),
-        ({"kind": "arms", **arms_spec(120, True, "flat", ["first", "last"], "z"), "full": True}, 3),
-        ({"kind": "arms", **arms_spec(120, True, "step", ["gap-left", "gap-right"], "l")}, 3),
-        ({"kind": "words", "word": "lo", "layout": "middle-of-four", "genes": "anti", "skip_low": True}, 4 if t else None),
-        ({"kind": "arms", **arms_spec(120, True, "flat", [], "z", context="primary-last")}, 3),
+        ({"type": "arms", **arms_spec(120, True, "flat", ["first", "last"], "z", context="alone")}, 2),
+        ({"type": "arms", **arms_spec(120, True, "step", ["gap-left", "gap-right"], "l", context="alone")}, 2),
+        ({"type": "words", "word": "zoz", "layout": "next-olo", "genes": "dup", "skip_low": True}, 2),
+        ({"type": "arms", **arms_spec(120, True, "flat", ["first", "last"], "z"), "full": True}, 3),
+        ({"type": "arms", **arms_spec(120, True, "step", ["gap-left", "gap-right"], "l")}, 3),
+        ({"type": "words", "word": "lo", "layout": "middle-of-four", "genes": "anti", "skip_low": True}, 4 if t else None),
+        ({"type": "arms", **arms_spec(120, True, "flat", [], "z", context="primary-last")}, 3),
     ]
     if t:
         out += [
-            ({"kind": "arms", **arms_spec(120, True, "spike", ["first"], "l", 3, context="three-with-X")}, 4),
-            ({"kind": "arms", **arms_spec(400, True, "flat", ["last", "gap-right"], "z")}, 3),
+            ({"type": "arms", **arms_spec(120, True, "spike", ["first"], "l", 3, context="three-with-X")}, 4),
+            ({"type": "arms", **arms_spec(400, True, "flat", ["last", "gap-right"], "z")}, 3),
         ]
     return [(s, k) for s, k in out if k]
 
 
 def table_of(spec):
     """(rows, options) for a pool / schedule table spec."""
-    if spec["kind"] == "words":
+    if spec["type"] == "words":
         return words_table(spec["word"], spec["layout"], spec["genes"]), {"skip_low": spec.get("skip_low", False), "min_weight": 0, "skip_outliers": 10}
     return arms_table(spec), arms_config(spec)
 
@@ -543,7 +543,6 @@ def run_pools(case, ctx):
     for method in METHODS:
         serial = judge(ctx, rows, method, cfg, segment(ctx, rows, method, cfg))
         for procs in (2, 3, 16) if method in POOLED else (16,):
-            keep, _ = survivors(rows, method, cfg)
             ctx.state(("pools", tdig, method, procs), nontrivial=True)
             res = segment(ctx, rows, method, cfg, processes=procs)
             canon = judge(ctx, rows, method, cfg, res, {"processes": procs})
